@@ -70,10 +70,10 @@ func checkIdentity(in *graph.Instance, wrap *graph.WrapPP) (labels []string, non
 		lookup[c.Name] = got
 		tn := ""
 		if w, ok := got.(*zoo.W); ok {
-			if t := g.ByPtr[reflect.ValueOf(w.Target).Pointer()]; t != nil {
+			if t := g.Find(w.Target); t != nil {
 				tn = t.Name
 			}
-		} else if t := g.ByPtr[reflect.ValueOf(got).Pointer()]; t != nil {
+		} else if t := g.Find(got); t != nil {
 			tn = t.Name
 		}
 		if tn != c.Name {
@@ -264,7 +264,7 @@ func runCase(t interface {
 func TestIdentity(t *testing.T) {
 	kit.Rec.Rule(rule)
 	rapid.Check(t, func(t *rapid.T) {
-		s := graph.Gen(t, graph.GenOpts{MinNodes: 2, MaxNodes: 6, Variants: "NNLPE", Aliases: true, Lookups: true})
+		s := graph.Gen(t, graph.GenOpts{MinNodes: 2, MaxNodes: 6, Variants: "NNLPE", Aliases: true, Lookups: true, Twins: true})
 		wrapNames := map[int]bool{}
 		plans := map[int]graph.WrapPlan{}
 		switch rapid.IntRange(0, 2).Draw(t, "wrapmode") {
